@@ -1,5 +1,6 @@
 import DmrVerif.Driver.Loop
+import DmrVerif.Driver.Crc
 
-/-! model driver for property C05 (stub: no operations registered yet) -/
+/-! model driver for property C05 -/
 
-def main : IO Unit := Dmr.Driver.runMain []
+def main : IO Unit := Dmr.Driver.runMain [Dmr.Driver.crcOp]
